@@ -1,5 +1,5 @@
 (* Dispatcher entries for row-image cells (glue; no theorem depends on it). *)
-From GB Require Import Base.Prelude Base.DecText Base.Sexp Model.Cell Spec.Values.
+From GB Require Import Base.Prelude Base.DecText Base.Sexp Model.Cell Model.Alias Spec.Values.
 From Coq Require Import String.
 Open Scope string_scope.
 Open Scope list_scope.
@@ -104,5 +104,19 @@ Definition dispatch_cell (jsonp : bytes -> res bytes) (op : bytes) (args : list 
       | _, _, _, _, _, _ => Some (L [vsym "bad"%string; vsym "cell_raw-args"%string])
       end
     | _ => Some (L [vsym "bad"%string; vsym "cell_raw-arity"%string])
+    end
+  else if op_is op "cell_view" then
+    (* (cell_view data pos typ meta) -> (view start len) | (fresh) *)
+    match args with
+    | [d; p; t; m] =>
+      match as_hex d, as_nat p, as_int t, as_int m with
+      | Some d, Some p, Some t, Some m =>
+        Some (match cell_view d p t m with
+              | Some (a, n) => L [vsym "view"; vnat a; vnat n]
+              | None => L [vsym "fresh"]
+              end)
+      | _, _, _, _ => Some (L [vsym "bad"%string; vsym "cell_view-args"%string])
+      end
+    | _ => Some (L [vsym "bad"%string; vsym "cell_view-arity"%string])
     end
   else None.
